@@ -249,7 +249,10 @@ fn check_app(rep: &mut Report, case: u64, app: &AppDesc, policy: &Policy, rng: &
         }
         reqs.push(("OPTIONS", None, None, "options-without-request-method"));
         for m in ["GET", "POST", "PUT", "PATCH", "DELETE", "HEAD", "OPTIONS", "BREW", "get", "GE", "GET, POST"] {
-            let acrh = match rng.below(3) { 0 => None, 1 => Some("x-custom, content-type"), _ => Some("Authorization") };
+            // requested header lists: everyday ones, and names over the whole RFC 9110 token alphabet, lists without spaces, upper case, a long list
+            let acrh = match rng.below(8) { 0 | 1 => None, 2 => Some("x-custom, content-type"), 3 => Some("Authorization"),
+                4 => Some("content-type, x_upload_token"), 5 => Some("x-amz-meta-v1.2,authorization"), 6 => Some("X-Trace~Id, x!#$%&'*+-.^_`|~z"),
+                _ => Some("accept,accept-language,content-language,content-type,range,x-requested-with,x-csrf-token,x_a,x.b,x~c") };
             reqs.push(("OPTIONS", Some(m.to_string()), acrh, "preflight"));
         }
         for (method, acrm, acrh, class) in reqs {
